@@ -46,7 +46,7 @@ def gen_case(rng, tier):
     return case
 
 
-def cases(tier, rng):
+def _cases(tier, rng):
     yield {'kind': 'dual', 'term': [['take', 2], ['count', False]], 'items': [{'t': [0, 5]}, {'t': [1, 6]}, {'t': [0, 7]}, {'t': [0, 8]}, {'t': [1, 9]}]}
     yield {'kind': 'dual', 'term': [['map', ['none_if_mod', 2, 0]], ['assert1', 'ne']], 'items': [{'t': [0, 2]}, {'t': [0, 2]}, {'t': [0, 3]}]}
     yield {'kind': 'dual', 'term': [['filter', ['truthy_int']], ['count', False]], 'items': [{'t': [0, 1]}, {'t': [0, 2]}, {'t': [0, 3]}]}
@@ -180,7 +180,7 @@ def dec_item(h):
     return h['t'][1] if isinstance(h, dict) and 't' in h else h
 
 
-def oracle(case, r):
+def _oracle(case, r):
     if 'harness_exc' in r:
         return 'real code raised: ' + r['harness_exc']
     if r.get('raised'):
@@ -226,3 +226,14 @@ def tags(case, r):
 
 def violation_class(case, text):
     return 'error-vs-normal' if 'ends with an error' in text else 'outputs'
+
+
+def cases(tier, rng):
+    """every case of `_cases`, and for a fraction of the mux/plain ones the same case run as the SECOND subscription of
+    its pipeline object (after an earlier subscription that completed, failed or was disposed)"""
+    pr = rng.sub('resubscription')
+    return muxprop.with_preludes(_cases(tier, rng), pr)
+
+
+def oracle(case, r):
+    return muxprop.prelude_violation(case, r) or _oracle(case, r)
